@@ -392,7 +392,7 @@ fn gen_union(s: &mut Src, decls: &[Decl], k: usize) -> UnionD {
             let (lo, hi) = p.int_range().unwrap();
             let lo = lo.max(i32::MIN as i128) as i64;
             let hi = hi.min(i32::MAX as i128) as i64;
-            let mut u: Vec<i64> = (0..=12).filter(|v| *v >= lo && *v <= hi).collect();
+            let mut u: Vec<i64> = (0..=24).filter(|v| *v >= lo && *v <= hi).collect();
             for extra in [lo, hi, -1, -7, 100, 1000, 65535, 40000] {
                 if extra >= lo && extra <= hi && !u.contains(&extra) {
                     u.push(extra);
@@ -408,12 +408,10 @@ fn gen_union(s: &mut Src, decls: &[Decl], k: usize) -> UnionD {
     let mut avail = universe.clone();
     let nvar = (1 + s.below(4)).min(avail.len().max(1));
     let default_at = if s.chance(40) { Some(if s.chance(70) { nvar - 1 } else { s.below(nvar) }) } else { None };
-    let omit_case = !matches!(switch, Switch::Enum(_) | Switch::Prim(Prim::Bool) | Switch::Prim(Prim::Char)) && s.chance(8);
-    if omit_case {
-        // variants without `case` get a position-derived label (documented: index; implemented:
-        // index + 1): keep explicit labels away from both
-        avail.retain(|v| *v > 12 || *v < 0);
-    }
+    // README: an omitted `case` "defaults to the 0-indexed index of the variant", i.e. an integer:
+    // caseless variants (default or not) are only generated for integer discriminators
+    let int_switch = !matches!(switch, Switch::Enum(_) | Switch::Prim(Prim::Bool) | Switch::Prim(Prim::Char));
+    let omit_case = int_switch && s.chance(8);
     let mut pool: Vec<&str> = VARIANT_WORDS.to_vec();
     let mut variants = vec![];
     let mut any_payload = false;
@@ -432,7 +430,7 @@ fn gen_union(s: &mut Src, decls: &[Decl], k: usize) -> UnionD {
         }
         let is_default = default_at == Some(vi);
         let want = if is_default {
-            s.below(3)
+            if int_switch { s.below(3) } else { 1 + s.below(2) }
         } else if omit_case && s.chance(50) {
             0
         } else {
@@ -451,6 +449,28 @@ fn gen_union(s: &mut Src, decls: &[Decl], k: usize) -> UnionD {
             break;
         }
         variants.push(UVariant { ident: w, shape, cases, default: is_default });
+    }
+    // a caseless variant at position k is documented to have label k: no other variant may declare k
+    let caseless: Vec<i64> = variants.iter().enumerate().filter(|(_, v)| v.cases.is_empty()).map(|(k, _)| k as i64).collect();
+    for (vpos, v) in variants.iter_mut().enumerate() {
+        let mut i = 0;
+        while i < v.cases.len() {
+            if caseless.contains(&v.cases[i]) {
+                avail.retain(|a| !caseless.contains(a));
+                if !avail.is_empty() {
+                    v.cases[i] = avail.remove(s.below(avail.len()));
+                    i += 1;
+                } else if v.cases.len() > 1 {
+                    v.cases.remove(i);
+                } else {
+                    // nothing left to rename it to: keep the declaration valid by making it the only label user
+                    v.cases[i] = 110 + (vpos as i64) * 3 + i as i64;
+                    i += 1;
+                }
+            } else {
+                i += 1;
+            }
+        }
     }
     if variants.is_empty() {
         variants.push(UVariant {
